@@ -1356,6 +1356,32 @@ def s_group_stream(vm, st, callee, args, dest, ret_bb, m):
     return done(vm, st, dest, ret_bb, g.data)
 
 
+def s_trim_matches_char(vm, st, callee, args, dest, ret_bb, m):
+    """str::trim_matches / trim_start_matches / trim_end_matches with a `char` pattern"""
+    which = m.group(1)
+    s_ = as_str(vm, st, args[0])
+    chv = simp(args[1]) if z3.is_expr(args[1]) else args[1]
+    if not z3.is_bv_value(chv):
+        raise Unsupported('trim_matches with a symbolic char')
+    ch = chr(chv.as_long())
+    if isinstance(s_.s, str):
+        r = s_.s.strip(ch) if which == 'trim_matches' else s_.s.lstrip(ch) if which == 'trim_start_matches' else s_.s.rstrip(ch)
+        return done(vm, st, dest, ret_bb, StrV(r))
+    kept = z3.FreshConst(z3.StringSort(), 'trim_kept')
+    lead = z3.FreshConst(z3.StringSort(), 'trim_lead') if which != 'trim_end_matches' else z3.StringVal('')
+    tail = z3.FreshConst(z3.StringSort(), 'trim_tail') if which != 'trim_start_matches' else z3.StringVal('')
+    cs = [s_.z() == z3.Concat(lead, kept, tail)]
+    for x in (lead, tail):
+        if not z3.is_string_value(x):
+            cs.append(z3.InRe(x, z3.Star(z3.Re(ch))))
+    if which != 'trim_end_matches':
+        cs.append(z3.Not(z3.PrefixOf(z3.StringVal(ch), kept)))
+    if which != 'trim_start_matches':
+        cs.append(z3.Not(z3.SuffixOf(z3.StringVal(ch), kept)))
+    st.pc += cs
+    return done(vm, st, dest, ret_bb, StrV(kept))
+
+
 def s_literal_to_string(vm, st, callee, args, dest, ret_bb, m):
     """source text of a literal token: an abstract string tied to the literal it came from"""
     lit = deref(vm, st, args[0])
@@ -1507,6 +1533,7 @@ TABLE = [
     (r'^<proc_macro2::token_stream::IntoIter as IntoIterator>::into_iter$', s_ts_into_iter),
     (r'^proc_macro2::Group::stream$', s_group_stream),
     (r'^<proc_macro2::Literal as ToString>::to_string$', s_literal_to_string),
+    (r'^core::str::<impl str>::(trim_matches|trim_start_matches|trim_end_matches)::<char>$', s_trim_matches_char),
     (r'^syn::parse_str::<LitStr>$', s_parse_litstr),
     (r'^LitStr::value$', s_litstr_value),
     (r'^syn::Error::new_spanned::<', s_syn_error),
